@@ -400,6 +400,9 @@ def requirements(stats, tier):
         need.append("documented examples run: %s" % sorted(stats.sets.get("docs_example", [])))
     if stats.get("hints_with_index_0") < 3:
         need.append("index-0 hints on the command line: %d" % stats.get("hints_with_index_0"))
+    both = sum(v for k, v in stats.counts.items() if k.startswith("both_raised."))
+    if both > 0.1 * max(1, stats.get("cli_runs")):
+        need.append("command and API pipeline both raised in %d of %d runs: too little was observed (%s)" % (both, stats.get("cli_runs"), sorted(k for k in stats.counts if k.startswith("both_raised."))))
     if stats.get("find_only_runs") < 10:
         need.append("find-only runs: %d" % stats.get("find_only_runs"))
     return need
